@@ -266,6 +266,8 @@ def _history_calls(small):
         for sh in (("b3", "5") if small else ("3", "b3", "5", "#4")):
             for up in (True, False):
                 calls.append(("from_shorthand", (n, sh, up)))
+    # a start note spelled with a sharp and a flat (a valid name), and the way back from where it leads
+    calls += [("from_shorthand", ("C#b", "5", True)), ("from_shorthand", ("G", "5", False))]
     # refused questions (how they are refused is not judged, only that they are refused the same way every time)
     # sibling helpers of the same module (their own answers are compared with their cold answers too)
     calls += [("get_interval", ("C", 3, "G")), ("get_interval", ("E", 5, "Bb")), ("invert", (["C", "E", "G"],)), ("measure", ("E", "C")),
